@@ -146,7 +146,8 @@ pub fn c03(ctx: &Ctx) -> (Report, Meta) {
                 c03_check(&mut rep, &g2, "length-fresh-crc");
             }
             // trailing bytes
-            for extra in [1usize, 40] {
+            let longs: Vec<usize> = if l <= 2 || l == 19 || l == 1023 { vec![65536 - (l + 6), 65536 - (l + 6) - 1, 65536, 131072 - (l + 6)] } else { vec![] };
+            for extra in [1usize, 40].into_iter().chain(longs) {
                 let mut g = f.clone();
                 g.extend(std::iter::repeat(0x5A).take(extra));
                 c03_check(&mut rep, &g, "suffix");
@@ -581,6 +582,8 @@ pub fn tokens() -> Vec<(&'static str, Vec<u8>)> {
         ("L0", make_frame(&[])),
         ("L1", make_frame(&[0x3E])),
         ("L2", make_frame(&[0x3E, 0xD0])),
+        ("L1-reserved-bits", make_frame_r(&[0x3E], 0x15)),
+        ("1005-reserved-bits", make_frame_r(&f1005[3..22], 0x20)),
         ("1005", f1005.clone()),
         ("outer", outer),
         ("outer-badcrc", outer_bad),
@@ -820,6 +823,19 @@ pub fn enumerate_buffers(tier: Tier, visit: Visit) -> Report {
             v
         }),
     ];
+    // buffers around and beyond 64 KiB (lengths that do not fit 16 bits)
+    let f1005 = unhex("D300133ED7D30202980EDEEF34B4BD62AC0941986F33360B98");
+    for total in [65535usize, 65536, 65537, 65536 + 24, 65536 + 25, 131072] {
+        let mut v = f1005.clone();
+        v.resize(total, 0x00);
+        longs.push(("1005 frame followed by zeros up to a total around 64 KiB", v));
+        let mut v = vec![0x55u8; total - 25];
+        v.extend_from_slice(&f1005);
+        longs.push(("garbage up to around 64 KiB, then a 1005 frame", v));
+        let mut v = vec![0x55u8; total - 10];
+        v.extend_from_slice(&f1005[..10]);
+        longs.push(("garbage up to around 64 KiB, then an incomplete 1005 frame", v));
+    }
     // every truncation of two maximum frames, in steps (thorough: every length)
     let step = tier.pick(37, 1);
     let mut t = 0;
@@ -1154,6 +1170,14 @@ pub fn c13(ctx: &Ctx) -> (Report, Meta) {
         }
         suffixes.push(second.clone());
         suffixes.push(second[..5].to_vec());
+        if l <= 2 || l == 19 || l == 255 || l == 1023 {
+            // totals around 64 KiB and 128 KiB (lengths that do not fit 16 bits)
+            for total in [65535usize, 65536, 65537, 65536 + l + 5, 65536 + l + 6, 131072, 131072 + l + 5] {
+                if total > l + 6 {
+                    suffixes.push(vec![0u8; total - (l + 6)]);
+                }
+            }
+        }
         watch_enter(0x1300_0000 + l as u64);
         for p in &payloads {
             let f = make_frame(p);
